@@ -39,6 +39,7 @@ ASSUMPTIONS = (
     "retained-use sub-monitor: the result of copying/converting/combining a pre-edit object must carry the object's own value; "
     "not judged for base-unit equivalents, Unit(old_unit) (a new construction from the expression), reductions, and pickle round "
     "trips (C11); in every case a string constructed afterwards must mean what the current contents say",
+    "in_base('mks') is judged only for registries that hold the default symbols (the unit system may name any of them)",
     "symbols with a zero-point offset are probed for scale/dimension/offset of atomic and prefixed strings only (arithmetic on "
     "offset scales is C08's subject)",
     "retained objects: snapshot (scale, dimension, offset, expression, data bytes) must not change, conversion to SI base units "
@@ -304,6 +305,7 @@ class Session:
         self.pred_hist = {}          # unit string -> list of earlier predictions
         self.retained = []           # dicts
         self.last_kind = "none"      # kind of the most recent successful edit of this registry
+        self.full_defaults = not provenance.startswith("empty+si")
         self.idcheck_always = False
         self.dead = False
 
@@ -530,7 +532,8 @@ class Session:
             E["to_value"] = (v * s / ob[1], None, None, tol)
             E["add"] = (2 * v * s, d, None, tol)
             E["convert_to_units"] = (v * s, d, ob[1], tol)
-            E["in_base"] = (v * s, d, None, tol)
+            if self.full_defaults:      # the mks unit system may name any default symbol (J/kg for length**2/time**2, ...)
+                E["in_base"] = (v * s, d, None, tol)
             E["mul-inv-base"] = (v * s * 2.0 / ob[1], dims.ZERO, None, tol)
             E["div-base"] = (v * s / (2.0 * ob[1]), dims.ZERO, None, tol)
             E["add-base"] = (v * s + 3.25 * ob[1], d, None, 4 * tol)
@@ -554,11 +557,34 @@ class Session:
                 E["to-other"] = "raise"
         return E
 
+    def _array_bad(self, name, e, o, u):
+        """None when the observed outcome o of sub-probe `name` on unit string u agrees with the expectation e"""
+        if e == "raise":
+            if o[0] == "ok":
+                return ("not-refused", f"{name} with unit string {u!r} returned {o[1:]} although the current contents give the "
+                                       f"string no meaning / another dimension")
+            return None
+        si, d, uscale, tol = e
+        tol = tol + 1e-12
+        if o[0] != "ok":
+            return ("raised", f"{name} on [1.0, 2.5] {u} raised {o[1]}; current contents give SI values {si.tolist()}")
+        vals = np.array(o[1])
+        got = vals * (o[2] if o[2] is not None else 1.0)
+        if d is not None and o[3] != dimlist(d):
+            return ("dimension", f"{name} on {u} data has dims {o[3]}; current contents give {dims.show(d)}")
+        if got.shape != si.shape or not np.all(np.abs(got - si) <= tol * np.abs(si)):
+            return ("value", f"{name} on [1.0, 2.5] {u}: SI values {got.tolist()} (data {o[1]}, unit scale {o[2]}); "
+                             f"current contents give {si.tolist()}")
+        if uscale is not None and not feq(o[2], uscale, tol):
+            return ("unit-scale", f"{name} on {u}: result unit scale {o[2]!r}; requested unit has {uscale!r}")
+        return None
+
     def judge_array(self, sp, symbols, obs):
         rec, model = self.rec, self.model
         kind, ver = self.edit_of(symbols)
         E = self.expected_array(sp)
         u = sp["u"]
+        failed = []
         for name, e in E.items():
             key = "A|" + u + "|" + name
             o = obs.get(key)
@@ -568,37 +594,37 @@ class Session:
             rec.count("evals_model_array")
             cell = ("model", kind, "array:" + name, self.warmth(key, ver), "raise" if e == "raise" else "ok")
             case = {"unit": u, "probe": name, "spec": sp, "observed": o, "last_edit": kind, "prov": self.prov, "log": model.log[-12:]}
-            bad = None
-            if e == "raise":
-                if o[0] == "ok":
-                    bad = ("not-refused", f"{name} with unit string {u!r} returned {o[1:]} although the current contents give the "
-                                          f"string no meaning / another dimension")
-            else:
-                si, d, uscale, tol = e
-                tol = tol + 1e-12
-                if o[0] != "ok":
-                    bad = ("raised", f"{name} on [1.0, 2.5] {u} raised {o[1]}; current contents give SI values {si.tolist()}")
-                else:
-                    if o[4] is False and name in RULE_PROBES:
-                        # mechanism of its own: the result unit belongs to a registry the operands do not belong to; every later
-                        # string conversion of the result is then read against that other registry's contents
-                        rec.violation(f"C12:result-bound-to-other-registry:{name}",
-                                      f"{name} on data in {u!r} created with registry=reg returned units whose .registry is not reg "
-                                      f"(another live registry had equal contents when the cached unit rule was first evaluated); "
-                                      f"later .to(<string>) of the result is resolved against the other registry", case)
-                    vals = np.array(o[1])
-                    got = vals * (o[2] if o[2] is not None else 1.0)
-                    if d is not None and o[3] != dimlist(d):
-                        bad = ("dimension", f"{name} on {u} data has dims {o[3]}; current contents give {dims.show(d)}")
-                    elif got.shape != si.shape or not np.all(np.abs(got - si) <= tol * np.abs(si)):
-                        bad = ("value", f"{name} on [1.0, 2.5] {u}: SI values {got.tolist()} (data {o[1]}, unit scale {o[2]}); "
-                                        f"current contents give {si.tolist()}")
-                    elif uscale is not None and not feq(o[2], uscale, tol):
-                        bad = ("unit-scale", f"{name} on {u}: result unit scale {o[2]!r}; requested unit has {uscale!r}")
+            if o[0] == "ok" and o[4] is False and name in RULE_PROBES:
+                # mechanism of its own: the result unit belongs to a registry the operands do not belong to; every later
+                # string conversion of the result is then read against that other registry's contents
+                rec.violation(f"C12:result-bound-to-other-registry:{name}",
+                              f"{name} on data in {u!r} created with registry=reg returned units whose .registry is not reg "
+                              f"(another live registry had equal contents when the cached unit rule was first evaluated); "
+                              f"later .to(<string>) of the result is resolved against the other registry", case)
+            bad = self._array_bad(name, e, o, u)
             if bad:
-                rec.violation(f"C12:{kind}:array-{bad[0]}:{name}", bad[1] + f" (after {kind}; history {model.log[-6:]})", case)
+                failed.append((name, e, bad, case))
             else:
                 rec.ok(cell)
+        if not failed:
+            return
+        # diagnosis by consequence, through the public interface only: give this registry a table no other registry has (one
+        # more unique symbol) and repeat the sub-probes that failed.  The unit-rule caches are keyed by the table's hash, so a
+        # failure that disappears was caused by an entry cached for *another* registry of equal contents (known mechanism,
+        # keyed per rule); a failure that stays is reported under its own key.
+        redo = {}
+        if any(n in RULE_OF for n, _, _, _ in failed):
+            add_mark(self.unyt, self.reg, model, next_mark("c12probe"))
+            rec.count("foreign_cache_diagnoses")
+            redo, _ = observe(self.unyt, self.reg, [], [sp])
+        for name, e, bad, case in failed:
+            o2 = redo.get("A|" + u + "|" + name)
+            if name in RULE_OF and o2 is not None and self._array_bad(name, e, o2, u) is None:
+                rec.violation(f"C12:result-bound-to-other-registry:{RULE_OF[name]}",
+                              f"{bad[1]}; the same call is right once this registry's table differs from every other registry's "
+                              f"(cached unit rule of another registry with equal contents answered)", case)
+            else:
+                rec.violation(f"C12:{kind}:array-{bad[0]}:{name}", bad[1] + f" (after {kind}; history {model.log[-6:]})", case)
 
     def diff(self, obs, other, which, ups, ameta):
         rec = self.rec
@@ -720,6 +746,11 @@ class Session:
             except Exception as e:
                 rec.violation(f"C12:{kind}:retained-value:{r['kind']}:to-base-raises", f"array in {r['string']} built before {op}: .to({r['base']!r}) now raises {type(e).__name__}: {e}", case)
             # conversion to the creating string under the *current* contents
+            try:
+                if self.has_offset(model.evaluate(r["string"]).symbols):
+                    continue            # conversion *to* an offset scale applies the zero point: C08's subject
+            except Exception:
+                pass
             rec.count("evals_retained")
             o = model.outcome(r["string"])
             bo = model.outcome(r["base"])
